@@ -381,22 +381,31 @@ func (t *Tokenizer) peek(skipComment bool) rune {
 		}
 	}
 
-	switch t.last {
-	case '•':
-		t.last = '*'
-	case '×':
-		t.last = '*'
-	case '÷':
-		t.last = '/'
-	case '–':
-		t.last = '-'
-	case 'ˆ':
-		t.last = '^'
+	if skipComment {
+		// no mapping inside of string literals and quoted identifiers
+		t.last = mapAlias(t.last)
 	}
 
 	t.isLast = true
 	t.str = t.str[size:]
 	return t.last
+}
+
+// mapAlias maps the typographic variants of the operators
+func mapAlias(r rune) rune {
+	switch r {
+	case '•':
+		return '*'
+	case '×':
+		return '*'
+	case '÷':
+		return '/'
+	case '–':
+		return '-'
+	case 'ˆ':
+		return '^'
+	}
+	return r
 }
 
 func (t *Tokenizer) consume(skipComment bool) {
